@@ -383,3 +383,396 @@ end Examples
 
 end Process
 end NotationModel.C02.Tie
+
+/-! #### the plugin-named path, and the whole -/
+namespace NotationModel.C02.Tie
+section ProcessNamed
+
+/-- accepted or not, and the results, of a run of the model's stages -/
+def obsPair (e : Except St St) : Bool × List Result :=
+  match e with
+  | .ok s => (true, s.results)
+  | .error s => (false, s.results)
+
+theorem modelView_eq (i : Input) (enf : Enf) : modelView i enf = obsPair (processE i enf) := by
+  unfold modelView process obsPair
+  cases processE i enf <;> rfl
+
+/-- the plugin response, seen through `view`: the translated `processPluginResponse` on an outcome whose results
+after the first are the model's results gives the model's verdict and results -/
+theorem respView (i : Input) (resp : VerifySignatureResponse) (r0 : ValidationResult) (caps : List String)
+    (o : Outcome) (s : St)
+    (hrel : Rel [r0] o s) (hpre : isAuth r0 = false)
+    (hvi : i.verdictIdentity = verdictOf resp CapabilityTrustedIdentityVerifier)
+    (hvr : i.verdictRevocation = verdictOf resp CapabilityRevocationCheckVerifier)
+    (hcaps : ∀ c ∈ caps, c = CapabilityTrustedIdentityVerifier ∨ c = CapabilityRevocationCheckVerifier)
+    (hauth : hasAuth s)
+    (hplug : (getVerificationPlugin (GoLite.deref o.EnvelopeContent).SignerInfo).2 = none)
+    (hext : i.extAttrs.any (fun a => !i.processed.contains a.key) =
+      (getNonPluginExtendedCriticalAttributes (GoLite.deref o.EnvelopeContent).SignerInfo).any
+        (fun a => !slices.ContainsAny resp.ProcessedAttributes a.Key)) :
+    view (processPluginResponse caps resp o) = obsPair (processResponse i o.VerificationLevel.Enforcement caps s) := by
+  have h := source_processPluginResponse_refines_model i resp [r0] caps o s hrel (by simp [hpre]) hvi hvr hcaps hauth hplug hext
+  cases hp : processResponse i o.VerificationLevel.Enforcement caps s with
+  | ok s' =>
+    rw [hp] at h
+    obtain ⟨h1, rs, h2, h3⟩ := h
+    simp [view, obsPair, h1, h2, h3]
+  | error s' =>
+    rw [hp] at h
+    obtain ⟨h1, rs, h2, h3⟩ := h
+    cases he : (processPluginResponse caps resp o).1 with
+    | none => rw [he] at h1; cases h1
+    | some e => simp [view, obsPair, he, h2, h3]
+
+theorem respView' (i : Input) (resp : VerifySignatureResponse) (r0 : ValidationResult) (caps : List String)
+    (o : Outcome) (s : St) (enf : Enf)
+    (henf : enf = o.VerificationLevel.Enforcement)
+    (hO : o.VerificationResults = r0 :: o.VerificationResults.tail) (hS : s.results = o.VerificationResults.tail.map resOf)
+    (hpre : isAuth r0 = false)
+    (hvi : i.verdictIdentity = verdictOf resp CapabilityTrustedIdentityVerifier)
+    (hvr : i.verdictRevocation = verdictOf resp CapabilityRevocationCheckVerifier)
+    (hcaps : ∀ c ∈ caps, c = CapabilityTrustedIdentityVerifier ∨ c = CapabilityRevocationCheckVerifier)
+    (hauth : hasAuth s)
+    (hplug : (getVerificationPlugin (GoLite.deref o.EnvelopeContent).SignerInfo).2 = none)
+    (hext : i.extAttrs.any (fun a => !i.processed.contains a.key) =
+      (getNonPluginExtendedCriticalAttributes (GoLite.deref o.EnvelopeContent).SignerInfo).any
+        (fun a => !slices.ContainsAny resp.ProcessedAttributes a.Key)) :
+    view (processPluginResponse caps resp o) = obsPair (processResponse i enf caps s) := by
+  subst henf
+  exact respView i resp r0 caps o s ⟨_, by simpa using hO, hS⟩ hpre hvi hvr hcaps hauth hplug hext
+
+theorem contains_filterMap_strOf (P : List AVal) (k : String) :
+    (P.filterMap strOf).contains k = P.contains (.str k) := by
+  induction P with
+  | nil => rfl
+  | cons x P ih =>
+    cases x with
+    | str s =>
+      simp only [List.filterMap_cons, strOf, List.contains_cons, ih]
+      congr 1
+      by_cases h : k = s
+      · subst h; simp
+      · have : (AVal.str k == AVal.str s) = false := by simpa using h
+        simp [h, this]
+    | other n =>
+      simp only [List.filterMap_cons, strOf, List.contains_cons, ih]
+      have : (AVal.str k == AVal.other n) = false := by simp
+      simp [this]
+
+theorem ext_any_eq (si : SignerInfo) (P : List AVal) :
+    ((getNonPluginExtendedCriticalAttributes si).map (fun x => ({ key := keyOf x, critical := x.Critical } : ExtAttr))).any
+        (fun a => !(P.filterMap strOf).contains a.key) =
+      (getNonPluginExtendedCriticalAttributes si).any (fun a => !slices.ContainsAny P a.Key) := by
+  rw [source_getNonPluginExtendedCriticalAttributes_refines_model]
+  generalize si.SignedAttributes.ExtendedAttributes = l
+  induction l with
+  | nil => rfl
+  | cons x l ih =>
+    cases hk : x.Key with
+    | other n => simp only [List.filter_cons, hk]; simpa using ih
+    | str k =>
+      by_cases hh : VerificationPluginHeaders.contains k = true
+      · simp only [List.filter_cons, hk, hh]; simpa using ih
+      · have hh' : VerificationPluginHeaders.contains k = false := by simpa using hh
+        simp only [List.filter_cons, hk, hh', Bool.not_false, if_true, List.map_cons, List.any_cons, ih]
+        congr 1
+        simp only [keyOf, hk, slices.ContainsAny]
+        rw [contains_filterMap_strOf]
+
+/-- the capabilities the plugin is asked to verify are verification capabilities -/
+theorem toVerify_caps (t : Trace) (si : SignerInfo) (enf : GoLite.Map String String) :
+    ∀ c ∈ t.toVerify si enf, c = CapabilityTrustedIdentityVerifier ∨ c = CapabilityRevocationCheckVerifier := by
+  intro c hc
+  unfold Trace.toVerify Trace.pcaps at hc
+  have hc' := (List.mem_filter.1 hc).1
+  split at hc'
+  · unfold verifCaps at hc'
+    have := (List.mem_filter.1 hc').2
+    simp at this
+    rcases this with h | h
+    · exact Or.inr h
+    · exact Or.inl h
+  · cases hc'
+
+@[simp] theorem toInput_pluginAttr (env : Env) (v : Verifier) (si : SignerInfo) (t : Trace) :
+    (toInput env v si t).pluginAttr = classifyPlugin si := rfl
+@[simp] theorem toInput_minVerAttr (env : Env) (v : Verifier) (si : SignerInfo) (t : Trace) :
+    (toInput env v si t).minVerAttr = classifyMinVer env.isValidSemver si := rfl
+@[simp] theorem toInput_extAttrs (env : Env) (v : Verifier) (si : SignerInfo) (t : Trace) :
+    (toInput env v si t).extAttrs = (getNonPluginExtendedCriticalAttributes si).map (fun x => { key := keyOf x, critical := x.Critical }) := rfl
+@[simp] theorem toInput_pluginState (env : Env) (v : Verifier) (si : SignerInfo) (t : Trace) :
+    (toInput env v si t).pluginState = (if v.pluginManager.isNone then .managerNil else if t.got.2.isSome then .notInstalled else if t.md.2.isSome then .metadataError else .installed) := rfl
+@[simp] theorem toInput_pluginVersion (env : Env) (v : Verifier) (si : SignerInfo) (t : Trace) :
+    (toInput env v si t).pluginVersion = (if !env.isValidSemver t.md.1.Version then .invalidSemver else if !env.isRequiredVerificationPluginVer t.md.1.Version t.minVer then .tooOld else .ok) := rfl
+@[simp] theorem toInput_capIdentity (env : Env) (v : Verifier) (si : SignerInfo) (t : Trace) :
+    (toInput env v si t).capIdentity = (verifCaps t.md.1).contains CapabilityTrustedIdentityVerifier := rfl
+@[simp] theorem toInput_capRevocation (env : Env) (v : Verifier) (si : SignerInfo) (t : Trace) :
+    (toInput env v si t).capRevocation = (verifCaps t.md.1).contains CapabilityRevocationCheckVerifier := rfl
+@[simp] theorem toInput_trust (env : Env) (v : Verifier) (si : SignerInfo) (t : Trace) :
+    (toInput env v si t).trust = (if t.ld.2.isSome then .storeError else if t.rA0.Error.isSome then .notFound else .found) := rfl
+@[simp] theorem toInput_identityMatch (env : Env) (v : Verifier) (si : SignerInfo) (t : Trace) :
+    (toInput env v si t).identityMatch = t.ierr.isNone := rfl
+@[simp] theorem toInput_expired (env : Env) (v : Verifier) (si : SignerInfo) (t : Trace) :
+    (toInput env v si t).expired = t.rE.Error.isSome := rfl
+@[simp] theorem toInput_timestampOk (env : Env) (v : Verifier) (si : SignerInfo) (t : Trace) :
+    (toInput env v si t).timestampOk = t.rT.Error.isNone := rfl
+@[simp] theorem toInput_revocation (env : Env) (v : Verifier) (si : SignerInfo) (t : Trace) :
+    (toInput env v si t).revocation = (if t.rR.Error.isSome then .revoked else .ok) := rfl
+@[simp] theorem toInput_pluginCallError (env : Env) (v : Verifier) (si : SignerInfo) (t : Trace) :
+    (toInput env v si t).pluginCallError = t.ex.2.isSome := rfl
+@[simp] theorem toInput_processed (env : Env) (v : Verifier) (si : SignerInfo) (t : Trace) :
+    (toInput env v si t).processed = t.ex.1.ProcessedAttributes.filterMap strOf := rfl
+@[simp] theorem toInput_verdictIdentity (env : Env) (v : Verifier) (si : SignerInfo) (t : Trace) :
+    (toInput env v si t).verdictIdentity = verdictOf t.ex.1 CapabilityTrustedIdentityVerifier := rfl
+@[simp] theorem toInput_verdictRevocation (env : Env) (v : Verifier) (si : SignerInfo) (t : Trace) :
+    (toInput env v si t).verdictRevocation = verdictOf t.ex.1 CapabilityRevocationCheckVerifier := rfl
+
+theorem ite_band {α : Sort _} (a b : Bool) (x y : α) :
+    (if (a && b) = true then x else y) = if a = true then (if b = true then x else y) else y := by
+  cases a <;> cases b <;> rfl
+
+theorem len_pos {α : Type} (l : List α) : decide (GoLite.len l > 0) = !l.isEmpty := by
+  cases l with
+  | nil => rfl
+  | cons x l =>
+    simp only [GoLite.len, List.length_cons, List.isEmpty_cons, Bool.not_false, decide_eq_true_eq]
+    omega
+
+theorem toVerify_toInput (env : Env) (v : Verifier) (si : SignerInfo) (t : Trace) (enf : GoLite.Map String String)
+    (hcapsOf : capsOf (toInput env v si t) = t.pcaps si) :
+    toVerify (toInput env v si t) enf = t.toVerify si enf := by
+  have haS : trustpolicy.ActionSkip = Facts.actionSkip := by decide
+  unfold toVerify Trace.toVerify revSkippedBy revSkipped
+  rw [hcapsOf, mapGet_eq_enfGet, typeRev_eq, haS]
+  rfl
+
+set_option hygiene false in
+macro "leaf_n1" : tactic => `(tactic| simp_all [-List.any_eq_true, -List.any_eq_false, List.any_map, hcomp, contains_default, contains_nil, typeRev_eq, htE, htT, haS, actEnforce_eq, GoLite.setAt, GoLite.len, failAuthenticity, trust_ne1, trust_ne2, trust_ne3, rev_ne1, rev_ne2, authStage, expiryStage, timestampStage, revocationStage, pluginStage, hTVm, revSkippedBy, St.push,
+        isCriticalFailure_eq, resOf, trust_failed, trust_failed2, revocation_failed, typeAuth_eq, mapGet_eq_enfGet, Trace.rA, GoLite.contains, capId_eq.symm, capRev_eq.symm])
+set_option hygiene false in
+macro "leaf_n2" : tactic => `(tactic| simp_all [-List.any_eq_true, -List.any_eq_false, List.any_map, hcomp, view, obsPair, GoLite.idPure, St.obs, resOf])
+
+set_option maxHeartbeats 8000000 in
+theorem source_processSignature_refines_model_named (env : Env) (v : Verifier) (a : Args) (o0 : Outcome)
+    (ec : EnvelopeContent) (rI : ValidationResult) (t : Trace)
+    (hc : Contracts env v) (ht : TraceOK env v a o0 ec rI t)
+    (hI : env.verifyIntegrity a.sigBlob a.mt o0 = (some ec, rI)) (hIok : rI.Error = none) (hIty : isAuth rI = false)
+    (hres : o0.VerificationResults = [])
+    (hcaps : NormalCaps (verifCaps t.md.1))
+    (hpa : classifyPlugin ec.SignerInfo = .named) :
+    view (processSignature env v a.sigBlob a.mt a.pn a.tis a.tss a.sv a.pc o0) =
+      modelView (toInput env v ec.SignerInfo t) o0.VerificationLevel.Enforcement := by
+  have hgp := source_getVerificationPlugin_refines_model ec.SignerInfo
+  have hgm := source_getVerificationPluginMinVersion_refines_model env.isValidSemver ec.SignerInfo
+  have hcapsOf := capsOf_toInput env v ec.SignerInfo t hcaps
+  obtain ⟨s0, hs0, hdisc⟩ := discover_spec (toInput env v ec.SignerInfo t)
+  unfold processSignature
+  simp only [Id.run]
+  simp only [GoLite.forIn_appendIf, GoLite.forIn_appendUnless, forIn_anyReturnC, pure_bind]
+  simp only [hI, hIok, hres, Option.isSome_none, Bool.false_eq_true, if_false, deref_some, List.nil_append]
+  simp only [← ht.name, ← ht.minVer, ← ht.got, ← ht.md, ← ht.ld, ← ht.ierr]
+  obtain ⟨h1, at1, hat1, hat2⟩ := hgp.2.1 hpa
+  have hname : (t.name != "") = true := by
+    rw [ht.name]
+    have := hpa
+    unfold classifyPlugin at this
+    rw [hat1] at this
+    simp only at this
+    split at this
+    · cases this
+    · rw [hat2] at this
+      simp only at this
+      split at this
+      · cases this
+      · rename_i hb
+        simp only [bne_iff_ne, ne_eq]
+        intro he
+        rw [he, trimSpace_empty] at hb
+        exact hb (by decide)
+  simp only [h1, hname, Option.isSome_none, Bool.false_and, Bool.false_eq_true, if_false, if_true]
+  -- the exits of plugin discovery leave no result behind
+  have hexit : ∀ (e : Option GoLite.Err), e.isSome = true → discOK (toInput env v ec.SignerInfo t) = false →
+      view (pure (e, ({ EnvelopeContent := some ec, VerificationLevel := o0.VerificationLevel, VerificationResults := [rI] } : Outcome)) : Id _) =
+        modelView (toInput env v ec.SignerInfo t) o0.VerificationLevel.Enforcement := by
+    intro e he hk
+    simp only [modelView, process, processE, hdisc, hk, Bool.false_eq_true, if_false, bind, Except.bind]
+    simp [view, GoLite.idPure, St.obs, hs0]
+    cases e <;> simp_all
+  cases hmv : classifyMinVer env.isValidSemver ec.SignerInfo with
+  | notCritical | notString | blank | invalidSemver =>
+    obtain ⟨_, g2, g3⟩ := hgm.2.2 (by rw [hmv]; decide) (by rw [hmv]; decide)
+    have g3' : ((getVerificationPluginMinVersion env.isValidSemver ec.SignerInfo).2 != some errExtendedAttributeNotExist) = true := by
+      simpa [bne_iff_ne] using g3
+    simp only [g2, g3', Bool.and_self, if_true]
+    exact hexit _ rfl (by simp [discOK, toInput, hpa, hmv])
+  | absent | valid =>
+    have hd1 : ((getVerificationPluginMinVersion env.isValidSemver ec.SignerInfo).2.isSome &&
+        (getVerificationPluginMinVersion env.isValidSemver ec.SignerInfo).2 != some errExtendedAttributeNotExist) = false := by
+      first
+        | (rw [hgm.1 hmv]; decide)
+        | (rw [(hgm.2.1 hmv).1]; rfl)
+    simp only [hd1, Bool.false_eq_true, if_false]
+    by_cases hm : v.pluginManager.isNone = true
+    · simp only [hm, if_true]
+      exact hexit _ rfl (by simp [discOK, toInput, hpa, hmv, hm])
+    simp only [hm, Bool.false_eq_true, if_false]
+    by_cases hg : t.got.2.isSome = true
+    · simp only [hg, if_true]
+      exact hexit _ rfl (by simp [discOK, toInput, hpa, hmv, hm, hg])
+    simp only [hg, Bool.false_eq_true, if_false]
+    by_cases hmd : t.md.2.isSome = true
+    · simp only [hmd, if_true]
+      exact hexit _ hmd (by simp [discOK, toInput, hpa, hmv, hm, hg, hmd])
+    simp only [hmd, Bool.false_eq_true, if_false]
+    by_cases hvs : env.isValidSemver t.md.1.Version = false
+    · simp only [hvs, Bool.not_false, if_true]
+      exact hexit _ rfl (by simp [discOK, toInput, hpa, hmv, hm, hg, hmd, hvs])
+    have hvs' : env.isValidSemver t.md.1.Version = true := by simpa using hvs
+    simp only [hvs', Bool.not_true, Bool.false_eq_true, if_false]
+    by_cases hrq : env.isRequiredVerificationPluginVer t.md.1.Version t.minVer = false
+    · simp only [hrq, Bool.not_false, if_true]
+      -- a minimum version is demanded (without one every valid version will do)
+      have hval : classifyMinVer env.isValidSemver ec.SignerInfo = .valid := by
+        rcases (show classifyMinVer env.isValidSemver ec.SignerInfo = .absent ∨ classifyMinVer env.isValidSemver ec.SignerInfo = .valid by rw [hmv]; simp) with h | h
+        · exfalso
+          have h0 := hc.noMin _ hvs'
+          rw [ht.minVer, hgm.1 h] at hrq
+          rw [h0] at hrq
+          cases hrq
+        · exact h
+      exact hexit _ rfl (by simp [discOK, toInput, hpa, hval, hm, hg, hmd, hvs', hrq])
+    have hrq' : env.isRequiredVerificationPluginVer t.md.1.Version t.minVer = true := by simpa using hrq
+    simp only [hrq', Bool.not_true, Bool.false_eq_true, if_false]
+    have hpcs : ((default : List String) ++ List.filter (fun a => a == CapabilityRevocationCheckVerifier || a == CapabilityTrustedIdentityVerifier)
+        t.md.1.Capabilities) = t.pcaps ec.SignerInfo := by
+      simp only [Trace.pcaps, hpa, if_true, verifCaps]
+      rfl
+    simp only [hpcs]
+    by_cases hemp : t.pcaps ec.SignerInfo = []
+    · have : (GoLite.len (t.pcaps ec.SignerInfo) == 0) = true := by rw [hemp]; rfl
+      simp only [this, if_true]
+      exact hexit _ rfl (by simp [discOK, hcapsOf, hemp, hpa])
+    have hlen : (GoLite.len (t.pcaps ec.SignerInfo) == 0) = false := by
+      cases hq : t.pcaps ec.SignerInfo with
+      | nil => exact absurd hq hemp
+      | cons x l => simp [GoLite.len]; omega
+    simp only [hlen, Bool.false_eq_true, if_false]
+    have hd : discOK (toInput env v ec.SignerInfo t) = true := by
+      have hne : (t.pcaps ec.SignerInfo).isEmpty = false := by simpa using hemp
+      have hmvv : classifyMinVer env.isValidSemver ec.SignerInfo = .absent ∨ classifyMinVer env.isValidSemver ec.SignerInfo = .valid := by
+        rw [hmv]; simp
+      rcases hmvv with h | h <;> simp [discOK, hcapsOf, hne, hpa, h, hm, hg, hmd, hvs', hrq']
+    -- the plugin the manager hands out
+    have hipS : t.got.1.isSome = true := by
+      cases hpm : v.pluginManager with
+      | none => simp [hpm] at hm
+      | some m =>
+        have := hc.got m t.name hpm
+        rw [ht.got, hpm, deref_some]
+        apply this
+        have hg' := hg
+        rw [ht.got, hpm, deref_some] at hg'
+        simpa using hg'
+    -- the capabilities asked of the plugin and its answer, as the trace names them
+    have hTV : ((default : List String) ++ List.filter (fun a => !(GoLite.Map.get o0.VerificationLevel.Enforcement trustpolicy.TypeRevocation == trustpolicy.ActionSkip &&
+        a == CapabilityRevocationCheckVerifier)) (t.pcaps ec.SignerInfo)) = t.toVerify ec.SignerInfo o0.VerificationLevel.Enforcement := by
+      simp only [Trace.toVerify, revSkipped]
+      rfl
+    simp only [hTV, ← ht.ex, len_pos]
+    have hTVm := toVerify_toInput env v ec.SignerInfo t o0.VerificationLevel.Enforcement hcapsOf
+    have hA1 := fun cs o => (hc.auth cs o).1
+    have hA2 := fun cs o => (hc.auth cs o).2
+    have hE1 := fun o => (hc.expiry o).1
+    have hE2 := fun o => (hc.expiry o).2
+    have hT1 := fun p t s x y o => (hc.timestamp p t s x y o).1
+    have hT2 := fun p t s x y o => (hc.timestamp p t s x y o).2
+    have hR1 := fun o => (hc.revocation o).1
+    have hR2 := fun o => (hc.revocation o).2
+    have hcomp : ((fun (x : ExtAttr) => x.critical) ∘ fun (x : Attribute) => ({ key := keyOf x, critical := x.Critical } : ExtAttr)) =
+        fun a => a.Critical := rfl
+    have haS : trustpolicy.ActionSkip = Facts.actionSkip := by decide
+    have htE : trustpolicy.TypeExpiry = Facts.typeExpiry := by decide
+    have htT : trustpolicy.TypeAuthenticTimestamp = Facts.typeAuthenticTimestamp := by decide
+    have hrA0 := ht.rA0
+    have hrE := ht.rE
+    have hrT := ht.rT
+    have hrR := ht.rR
+    simp only [apply_ite view]
+    simp only [ite_band]
+    repeat' (refine ite_cases (fun _ => ?_) (fun _ => ?_))
+    all_goals (
+      rw [modelView_eq]
+      simp only [processE, hdisc, hd, if_true, bind, Except.bind]
+      clear hgp hgm hd hdisc hexit ht hc hd1 hpcs hTV hlen
+      rename_i hlast
+      try (have hlf := critFail_isSome _ hlast)
+      try leaf_n1)
+    all_goals (first
+      | (show view (processPluginResponse _ _ _) = _
+         refine respView' (toInput env v ec.SignerInfo t) t.ex.1 rI _ _ _ _ ?_ ?_ ?_ hIty ?_ ?_ (toVerify_caps _ _ _) ?_ ?_ ?_
+         · rfl
+         · rfl
+         · simp_all [resOf]
+         · rfl
+         · rfl
+         · exact ⟨_, List.mem_cons_self, by simp⟩
+         · simpa [GoLite.deref] using h1
+         · simpa [GoLite.deref] using ext_any_eq ec.SignerInfo t.ex.1.ProcessedAttributes)
+      | leaf_n2)
+
+/-- TIE (translated source): `processSignature` AS A WHOLE. For EVERY verifier, environment of callees, argument list,
+level and signature that passed integrity: the translated function is accepted exactly when the model `process`
+accepts the scenario the oracles' answers amount to (`toInput` of the trace, each oracle asked with the arguments the Go
+code hands it at that point), and records exactly the model's results after the integrity result - whether or not the
+signature names a verification plugin (discovery, capability filter, native checks the plugin does not own, hand-over to
+`processPluginResponse`, the update of the authenticity result through the pointer kept in the outcome).
+Assumed: `Contracts` (facts about callees), an outcome that starts empty, and that the plugin lists each verification
+capability at most once, trusted identity first (`NormalCaps`: the shapes the model's two capability flags express). -/
+theorem source_processSignature_refines_model (env : Env) (v : Verifier) (a : Args) (o0 : Outcome)
+    (ec : EnvelopeContent) (rI : ValidationResult) (t : Trace)
+    (hc : Contracts env v) (ht : TraceOK env v a o0 ec rI t)
+    (hI : env.verifyIntegrity a.sigBlob a.mt o0 = (some ec, rI)) (hIok : rI.Error = none) (hIty : isAuth rI = false)
+    (hres : o0.VerificationResults = [])
+    (hcaps : NormalCaps (verifCaps t.md.1)) :
+    view (processSignature env v a.sigBlob a.mt a.pn a.tis a.tss a.sv a.pc o0) =
+      modelView (toInput env v ec.SignerInfo t) o0.VerificationLevel.Enforcement := by
+  by_cases hpa : classifyPlugin ec.SignerInfo = .named
+  · exact source_processSignature_refines_model_named env v a o0 ec rI t hc ht hI hIok hIty hres hcaps hpa
+  · exact source_processSignature_refines_model_partial env v a o0 ec rI t hc ht hI hIok hIty hres hcaps hpa
+
+/-- the same in closed form (the trace is the one every call has) -/
+theorem source_processSignature_refines_model_closed (env : Env) (v : Verifier) (a : Args) (o0 : Outcome)
+    (ec : EnvelopeContent) (rI : ValidationResult)
+    (hc : Contracts env v)
+    (hI : env.verifyIntegrity a.sigBlob a.mt o0 = (some ec, rI)) (hIok : rI.Error = none) (hIty : isAuth rI = false)
+    (hres : o0.VerificationResults = [])
+    (hcaps : NormalCaps (verifCaps (traceOf env v a o0 ec rI).md.1)) :
+    view (processSignature env v a.sigBlob a.mt a.pn a.tis a.tss a.sv a.pc o0) =
+      modelView (toInput env v ec.SignerInfo (traceOf env v a o0 ec rI)) o0.VerificationLevel.Enforcement :=
+  source_processSignature_refines_model env v a o0 ec rI _ hc (traceOf_ok env v a o0 ec rI) hI hIok hIty hres hcaps
+
+/-! non-vacuity of the plugin-named path: the translated function runs a plugin that owns the identity check -/
+section ExamplesNamed
+def ec1 : EnvelopeContent := { SignerInfo := { SignedAttributes := { ExtendedAttributes :=
+  [{ Key := .str "io.cncf.notary.verificationPlugin", Critical := true, Value := .str "p" }] } } }
+def plugin1 : VerifyPlugin := { GetMetadata := fun _ => ({ Version := "1.0.0", Capabilities := ["SIGNATURE_GENERATOR.RAW", CapabilityTrustedIdentityVerifier] }, none) }
+def v1 : Verifier := { v0 with pluginManager := some { Get := fun _ => (some plugin1, none) } }
+def env1 (identityOk : Bool) : Env :=
+  { env0 none with
+    verifyIntegrity := fun _ _ _ => (some ec1, ⟨"integrity", "enforce", none⟩),
+    -- the native identity check would refuse: it must not be consulted, the plugin owns the check
+    verifyX509TrustedIdentities := fun _ _ _ => some ⟨"native identity check consulted"⟩,
+    executePlugin := fun _ _ _ _ _ => ({ VerificationResults := [(CapabilityTrustedIdentityVerifier, some ⟨identityOk, "r"⟩)], ProcessedAttributes := [] }, none) }
+
+example : view (processSignature (env1 true) v1 ⟨0⟩ "" "p" [] [] default [] (out0 "enforce")) =
+    (true, [⟨"authenticity", "enforce", false⟩, ⟨"expiry", "enforce", false⟩, ⟨"authenticTimestamp", "enforce", false⟩,
+            ⟨"revocation", "enforce", false⟩]) := by decide
+/-- the plugin's refusal is written into the authenticity result recorded FIRST (through the pointer), and rejects -/
+example : view (processSignature (env1 false) v1 ⟨0⟩ "" "p" [] [] default [] (out0 "enforce")) =
+    (false, [⟨"authenticity", "enforce", true⟩, ⟨"expiry", "enforce", false⟩, ⟨"authenticTimestamp", "enforce", false⟩,
+            ⟨"revocation", "enforce", false⟩]) := by decide
+end ExamplesNamed
+
+end ProcessNamed
+end NotationModel.C02.Tie
